@@ -146,13 +146,20 @@ func c07Commits(r *mc.R, mode string) {
 						return fmt.Errorf("open base: %v", err)
 					}
 					if hot {
-						// churn: 102 writes that toggle every key between the two non-empty values, then restore the base
+						// churn: 102 writes toggling ONE key (rotating with the case number) between the two non-empty values, then
+						// restoring it: the other root children stay clean (and, with short values, embedded in the root), which is the
+						// situation the parallel committer treats specially; every 3rd hot case churns all keys instead.
+						churn := []int{(bi / 4) % c06NKeys}
+						if (bi/4)%3 == 2 {
+							churn = []int{0, 1, 2, 3, 4, 5}
+						}
 						for j := 0; j < 102; j++ {
-							if err := tr.Update(a.Keys[j%c06NKeys], c06Vals[1+(j/c06NKeys)%2]); err != nil {
+							k := churn[j%len(churn)]
+							if err := tr.Update(a.Keys[k], c06Vals[1+(j/len(churn))%2]); err != nil {
 								return fmt.Errorf("churn Update: %v", err)
 							}
 						}
-						for k := 0; k < c06NKeys; k++ {
+						for _, k := range churn {
 							if err := tr.Update(a.Keys[k], c06Vals[sh.base[k]]); err != nil {
 								return fmt.Errorf("churn restore: %v", err)
 							}
